@@ -68,16 +68,16 @@ fn main() {
         "C07" => vec![("c07", c01::run_c07), ("c15", c15::run), ("model", model::run_differential)],
         "C02" => vec![("c02", c02::run), ("gen", gen::run), ("model", model::run_differential)],
         "C03" => vec![("c03", c03::run), ("model", model::run_differential)],
-        "C08" => vec![("c08", c08::run), ("c03", c03::run)],
+        "C08" => vec![("c08", c08::run), ("c15-names", c15::inspection_named_like_a_step), ("c03", c03::run)],
         "C09" => vec![("c09", c09::run_c09), ("c09-collisions", c09::collisions), ("gen", gen::run)],
         "C05" => vec![("c05", c10::run_c05), ("c10", c10::run_c10), ("c09", c09::run_c09), ("gen", gen::run)],
         "C11" => vec![("c11", c09::run_c11), ("c12", c12::run), ("gen", gen::run)],
         "C10" => vec![("c10", c10::run_c10)],
-        "C12" => vec![("c12", c12::run), ("c04", c01::run_c04)],
+        "C12" => vec![("c12", c12::run), ("c04", c01::run_c04), ("c02-attribution", c02::attributed_signature_only)],
         "MODEL" => vec![("model", model::run_differential)],
         "GEN" => vec![("gen", gen::run)],
         "C13" => vec![("c13", c13::run), ("model", model::run_differential)],
-        "C15" => vec![("c15", c15::run), ("c02", c02::run), ("gen", gen::run)],
+        "C15" => vec![("c15", c15::run), ("c15-names", c15::inspection_named_like_a_step), ("c02", c02::run), ("gen", gen::run)],
         _ => vec![],
     };
     for (name, f) in groups {
